@@ -82,11 +82,52 @@ R3 = {
  "C18_F": ("master never forgets the Future of a failed job", "queue way, jobs that fail at run time", False, "a third of the reuse / fresh / queue cases now use a pipeline whose every run raises (fresh exception object each time)"),
 }
 
+R4 = {
+ "C01_G": ("a context key holding None loses to the processor default (default consulted one step too early)", "parameter not in the node config, context holds the key with value None, processor declares a default", True, ""),
+ "C01_H": ("by_position + broadcast recycles non-longest sequences with period min_len", "three or more variables with three or more distinct sequence lengths, expression using the middle one", False, "rich sweep specifications (up to three variables, lengths 1..5) are now used by C01 as well"),
+ "C02_G": ("'requires a previously deleted key' check reads the live deleted set after the node's own created keys were removed from it", "a key is deleted (or renamed away) and a later node both requires and re-creates it", False, "explicit hazard pair in the generator: delete:K / rename:K:c followed by template:\"{K}_x\":K or rename:K:K"),
+ "C02_H": ("canonical spec drops node parameters whose value is None (inspection keeps them)", "node parameter explicitly configured as null", True, ""),
+ "C03_G": ("per-sweep memo of expression results keyed by the variable values (1 == 1.0 == True)", "one sequence mixing hash-equal values of different type or sign, type-sensitive expression result", False, "sequences drawn from {1, 1.0, True, 0, 0.0, False, -0.0, 2, 2.0, 3.0, +-inf}"),
+ "C03_H": ("sequence digest uses allow_nan=False: inf/nan sweep values make the run raise", "explicit sequence containing a non-finite float, pipeline actually run", False, "(same generator change: non-finite floats in explicit sequences)"),
+ "C04_G": ("lru_cache on the sequence digest keyed by the value tuple (1 == 1.0)", "an ==-equal, differently typed sequence was seen earlier in the process", True, "(patch rebased onto the F30 repair; original kept)"),
+ "C04_H": ("YAML loader drops node keys whose value is null; inspect reads the raw mapping", "a node with a value-less `parameters:`; run through the loader vs inspection of the mapping", False, "`parameters: null` on parameter-less nodes in a third of the configurations; fifth observation path: Pipeline built from load_pipeline_from_yaml"),
+ "C05_G": ("operands of ==/!= chains sorted (a == b != c vs a == c != b share a signature)", "chained comparison with three operands, not all ==, operands permuted", False, "AST-level semantic mutation operators: operands of non-commutative operators and of chained comparisons, chain operators, conditional branches, min/max; expression templates with such shapes"),
+ "C05_H": ("sweep classes memoised by a tuple key that equates 1, 1.0 and True", "the other configuration was preprocessed earlier and its class is alive", False, "mutation operator sequence_retyped (same numbers, other YAML type)"),
+ "C06_G": ("directory mode decided by the path suffix only", "existing trace directory whose name contains a dot", False, "output mode dir_dotted (an existing directory named traces.v1.2) in C06 and C10"),
+ "C06_H": ("InvalidNodeParameterError renders its message lazily; str() raises for non-string names inside the construction handler", "unknown parameter whose name is not a string (YAML `on:` / `0:`)", False, "fault kind unknown_param_nonstring"),
+ "C07_G": ("output data summary copied from the input summary when the same object is returned", "in-place mutating operation", True, ""),
+ "C07_H": ("node-level None parameters dropped from the processor config; SER still reports them", "data node with a parameter explicitly None that has a default or is in the context", True, ""),
+ "C08_G": ("max_runs pre-flight gives up for by_position block + combinatorial source", "product far above the cap in that combination", True, ""),
+ "C08_H": ("loaded sources cached by path: a second block reading the same file gets the first block's select/rename", "two blocks whose sources name the same file", False, "later blocks may re-read an earlier block's file, half of the time in a way that keeps the spec valid"),
+ "C09_G": ("inspect computes the spec id through the runtime service, which resolves relative source paths against the cwd", "source block with a relative path, inspect run from another directory", False, "the configuration is also inspected from its parent directory"),
+ "C09_H": ("per-class sequence cache also caches from_context variables; a launch reuses one Pipeline", "from_context sweep whose list differs per run of the launch", False, "pipeline element sweep_ctx: from_context sweep fed by a per-run list from the run space"),
+ "C10_G": ("error text helper reads exc.args[0] of a KeyError", "bare `raise KeyError` inside a traced node", False, "pre-built exceptions with empty / tuple / two-element args, OSError(), SystemExit in C10 and C06"),
+ "C10_H": ("single-slot memo of the pipeline semantic id keyed without the sweep metadata", "same-shaped different sweep traced immediately before", True, ""),
+ "C11_G": ("allowed_funcs of one evaluator are merged into the class-level whitelist", "an earlier evaluator in the process was built with allowed_funcs", False, "every shard first builds an evaluator with allowed_funcs={len, pow, sqrt, sum}; escape corpus gained calls of those names"),
+ "C11_H": ("from_context keys added to the allowed names of sweep expressions", "from_context variable whose key differs from its name, expression mentioning the key", False, "YAML-path clause for from_context key names (and the YAML path itself, which had been vacuous, now builds pipelines)"),
+ "C12_G": ("integer constants converted to float before hashing", "two integer constants above 2**53 that round to one double", True, ""),
+ "C12_H": ("parameters_sig pairs sorted names with signatures in declaration order", "two swept parameters declared in non-alphabetical order, observed through the inspection payload", False, "payload clause: parameters_sig of a two-parameter sweep must carry each parameter's own signature, both declaration orders"),
+ "C13_G": ("ingest_many peeks at the first record of a one-shot iterable and drops it", "records handed over as a generator", False, "every third prefix is also ingested as a generator, as an iterator and record by record; all routes must agree"),
+ "C13_H": ("idempotency-key launches lose the attempt number", "idempotency key with attempt 2", False, "retried launches also by idempotency key; the full trace must show attempts [1, 2] (expectation from what was launched, not from the records)"),
+ "C14_G": ("subscription returns after close() even when a message was already popped", "close() from another thread between the loop-head test and the pop", False, "scenario close_from_other_thread and generated closer threads"),
+ "C14_H": ("single-* fast path: startswith(prefix) and endswith(suffix) without a length guard", "pattern jobs.*.cfg and a channel jobs.cfg", False, "channel jobs.cfg; scenario star_pattern_overlap"),
+ "C15_G": ("Future registered after the job is queued", "enqueue stalled between put and registration", True, ""),
+ "C15_H": ("orchestrator caches instantiated nodes per resolved spec object", "one Pipeline object enqueued for several jobs that overlap on different workers", False, "shared_pipeline: jobs of one payload kind are handed one and the same Pipeline object (every other burst does so for all 40 jobs)"),
+ "C16_G": ("node metadata reports data types by __qualname__", "component whose data type is a nested class", False, "components over a nested data type (VLab.Reading) in the enumerated library"),
+ "C16_H": ("strict-JSON digest: a non-finite sweep value makes the generated class's metadata raise", "explicit sweep sequence with inf / nan", False, "(generator change of C03: non-finite values in explicit sequences)"),
+ "C17_G": ("CLI run-space options merged with update(): dry_run False overwrites the YAML's true", "dry_run in YAML + --run-space-max-runs", True, ""),
+ "C17_H": ("max_runs: 0 read as 'use the default'", "cap of exactly 0 with at least one planned run", False, "caps of 0 in the YAML and on the command line"),
+ "C18_G": ("module-level dict of semantic ids keyed by sweep class (strong references)", "traced run, sweep node, fresh Pipelines", True, "(first version caught it; after the generator changes of this wave it was missed once in 80 cases, so half of the C18 cases are now made to contain a sweep and the way of repeating is a hash of the case, not a late draw)"),
+ "C18_H": ("master polls per-Future status channels; jobs without a Future leave their status in the transport", "queue way, jobs enqueued without a Future", False, "fire-and-forget jobs between the sample points (which act as barriers)"),
+}
+
 ALL = {}
 for k, v in R2.items():
     ALL[k] = v + (2,)
 for k, v in R3.items():
     ALL[k] = v + (3,)
+for k, v in R4.items():
+    ALL[k] = v + (4,)
 
 for name, (what, needs, first, strengthening, rnd) in sorted(ALL.items()):
     d = os.path.join(ROOT, "seeded", name)
